@@ -332,9 +332,15 @@ def index_after_analyses(ctx):
                              f"{when}: get_zone_id({name}) = {zid!r}, but zone {zid!r} is not that grid")
         return out
     before = ask("before any analysis")
+    describe = lambda g: (type(g).__name__, tuple(g.shape), tuple(g.positions)[:64], tuple(sorted(getattr(g, "vacancies", ()))))
+    tables = lambda: {"static_traps": [(k, describe(v)) for k, v in L.static_traps.items()], "special_grid": [(k, describe(v)) for k, v in L.special_grid.items()],
+                      "fillable": sorted(L.fillable), "has_cz": sorted(L.has_cz), "has_local": sorted(L.has_local),
+                      "floats": sorted(S.float_constants.items()), "ints": sorted(S.int_constants.items())}
+    tables_before, hash_before = tables(), hash(S)
+    twin = ArchSpec(layout=Layout(dict(L.static_traps), set(L.fillable), set(L.has_cz), set(L.has_local), special_grid=dict(L.special_grid)))
     src = ('@move{DEC}\ndef main(c: bool):\n    z = spec.get_static_trap(zone_id="traps")\n    a = filled.vacate(z, [(0, 0)])\n    b = filled.vacate(spec.get_static_trap(zone_id="aux"), [(1, 1), (2, 3)])\n'
            '    f = spec.get_static_trap(zone_id="fz")\n    p = filled.get_parent(f)\n    v = z[0:2, 0:2]\n    w = grid.shift(z, 1.0, 0.0)\n'
-           '    gate.local_rz(0.5, a)\n    gate.local_rz(0.5, b)\n    gate.local_rz(0.5, p)\n    gate.local_rz(0.5, v)\n    gate.local_rz(0.5, w)\n    gate.local_rz(0.5, filled.vacate(f, [(1, 1)]))\n')
+           '    gate.local_rz(0.5, a)\n    gate.local_rz(0.5, b)\n    gate.local_rz(0.5, p)\n    gate.local_rz(0.5, v)\n    gate.local_rz(0.5, w)\n    gate.local_rz(0.5, filled.vacate(f, [(1, 1)]))\n    k = spec.get_special_grid(grid_id="park")\n    gate.local_rz(0.5, k)\n    gate.local_rz(0.5, k[0:1, :])\n')
     try:
         for dec in ("", "(arch_spec=S)", "(arch_spec=S, aggressive=True)"):
             m = kernels.define(src.replace("{DEC}", dec), S=S)["main"]
@@ -345,6 +351,27 @@ def index_after_analyses(ctx):
     except Exception as e:
         ctx.obligation("the analyses run on a kernel over the probed layout", False, f"{type(e).__name__}: {e}"[:200])
     after = ask("after HintZone / ZoneAnalysis / execution used the layout")
+    # the analyses are readers: the tables, the value and the hash of the spec they were given are what they were, the spec still equals a
+    # spec built from the same tables, and its tables still pass the constructor (no grid under two names)
+    ctx.evaluations += 3
+    tables_after = tables()
+    changed = [k for k in tables_before if tables_before[k] != tables_after[k]]
+    if changed:
+        ctx.fail({"kind": "spec-changed-by-analysis", "layout": "index asked about foreign grids", "tables": ",".join(changed)},
+                 {"index_after_analyses": True, "when": "tables"},
+                 f"HintZone / ZoneAnalysis / execution changed the layout they were given: {changed[0]} was {str(tables_before[changed[0]])[:120]} and is {str(tables_after[changed[0]])[:160]}")
+    elif hash(S) != hash_before or S != twin or hash(S) != hash(twin):
+        ctx.fail({"kind": "spec-changed-by-analysis", "layout": "index asked about foreign grids", "tables": "identity"},
+                 {"index_after_analyses": True, "when": "identity"},
+                 f"after the analyses the spec no longer equals / hashes like a spec built from the same tables (hash before {hash_before}, now {hash(S)}, twin {hash(twin)}, equal: {S == twin})")
+    else:
+        ctx.nt(("index-probe", "tables and identity unchanged"))
+    try:
+        Layout(dict(L.static_traps), set(L.fillable), set(L.has_cz), set(L.has_local), special_grid=dict(L.special_grid))
+    except Exception as e:
+        ctx.fail({"kind": "spec-changed-by-analysis", "layout": "index asked about foreign grids", "tables": "constructor"},
+                 {"index_after_analyses": True, "when": "constructor"},
+                 f"after the analyses the layout's own tables are rejected by the Layout constructor: {type(e).__name__}: {str(e)[:120]}")
     for name in probes:
         if before[name] != after[name]:
             ctx.fail({"kind": "zone-index", "layout": "index asked about foreign grids", "probe": name, "lookup": after[name], "when": "changed by the analyses"},
